@@ -5,7 +5,10 @@ B  Mutex, Semaphore, RWLock, Barrier, Condition: try/release/wake functions, the
    (acquire / wait) with the progress clause `blocked-process-parks-instead-of-polling-at-zero-delay`.
 C  ConnectionPool: acquire (generator, three paths), release, _handle_warmup.
 D  PreemptibleResource / PreemptibleGrant (wait queue = heapq bag ordered by (priority, arrival)).
-E  Bulkhead admission (handle_event, _enqueue_request).
+E  Bulkhead: admission (handle_event, _enqueue_request, _forward_request), completion and queue hand-over
+   (_handle_response, _try_process_queued), queue timeouts (_handle_timeout).
+C2 ConnectionPool._handle_idle_timeout;  B5 Condition.wait_for;  F ThreadPool (has_capacity, handle_queued_event).
+Bounded stand-in (triage/c09_bounded.py) for the three remaining stubs and ConnectionPool.close_all.
 The concurrency models (FixedConcurrency, DynamicConcurrency, WeightedConcurrency) are under contract in
 specs/C08.py part B and are not repeated here.  See DESIGN.md section 3-C09.
 
@@ -304,8 +307,17 @@ loop(F_CND, "Condition.wait", 1, modifies="world", keeps=_EKEEP + [("Condition",
     ("lock:locked-iff-exactly-one-holder", lambda L: dict(REG.classes[_K["Mutex"]].inv)["locked-iff-exactly-one-holder"](L.self._lock)),
     ("lock:nobody-waits-for-a-free-lock", lambda L: dict(REG.classes[_K["Mutex"]].inv)["nobody-waits-for-a-free-lock"](L.self._lock))])
 
+# Condition.wait_for: `while not predicate(): ...; yield from self.wait()` - every iteration suspends inside wait()
+_LOCK_INV = [
+    ("lock:locked-iff-exactly-one-holder", lambda L: dict(REG.classes[_K["Mutex"]].inv)["locked-iff-exactly-one-holder"](L.self._lock)),
+    ("lock:nobody-waits-for-a-free-lock", lambda L: dict(REG.classes[_K["Mutex"]].inv)["nobody-waits-for-a-free-lock"](L.self._lock))]
+loop(F_CND, "Condition.wait_for", 1, modifies="world",     # (the body allocates a _Waiter: its fields are not in the frame)
+     keeps=[k for k in _EKEEP if k[0] != "_Waiter"] + [("Condition", "_lock")], inv=_LOCK_INV + [
+    # wait() returns with the lock re-acquired, so the predicate is always evaluated under the lock
+    ("predicate-evaluated-under-the-lock", lambda L: L.self._lock._locked)])
+
 # ---------------------------------------------------------------------------- D. preemptible resource
-F_PRE = "happysimulator/components/industrial/preemptible_resource.py"
+F_PRE ="happysimulator/components/industrial/preemptible_resource.py"
 from pyvc.comp import declare_filter  # noqa: E402
 declare_filter(F_PRE, "PreemptibleResource._do_release", 1)      # [g for g in self._active_grants if not g.released]
 ghost(F_PRE, "PreemptibleGrant.__init__", "self._on_preempt = on_preempt",
@@ -408,7 +420,7 @@ ghost(F_POOL, "ConnectionPool._try_get_idle_connection", "connection = self._idl
       "self.g_ihead = self.g_ihead + 1")
 
 _POOL_INV_NAMES = ["config", "never-more-connections-than-max", "active-plus-idle-plus-pending-is-total", "pending-nonneg",
-                   "lent-ids-were-issued", "idle-connection-is-not-lent-out"]
+                   "lent-ids-were-issued", "idle-connection-is-not-lent-out", "idle-connections-are-distinct"]
 # the class invariant of the pool, clause by clause, as loop invariant of the loops that suspend
 _POOL_INV = [("pool:" + _n, lambda L, n=_n: dict(REG.classes[_K["ConnectionPool"]].inv)[n](L.self)) for _n in _POOL_INV_NAMES]
 
@@ -486,6 +498,19 @@ loop(F_BH, "Bulkhead._handle_timeout", 1, modifies=[("Bulkhead", "_wait_queue"),
     ("no-earlier-entry-is-the-request", lambda L: forall(Int, lambda j: implies(
         (0 <= j) & (j < L.i), bq_id(L.self, j) != L.request_id), "j"))])
 
+# `for i, conn in enumerate(self._idle_connections): if conn.id == connection_id: ... break`: the idle timer searches
+# the queue for the connection it was armed for; nothing changes while it searches
+loop(F_POOL, "ConnectionPool._handle_idle_timeout", 1,
+     modifies=[("ConnectionPool", "_idle_connections"), ("ConnectionPool", "_total_connections"), ("ConnectionPool", "_connections_closed")],
+     types={"i": lambda: Int, "conn": lambda: Ref(_K["Connection"])}, inv=[
+    ("nothing-closed-while-searching", lambda L: mk_bool(
+        seq_term(L.self._idle_connections) == seq_term(L.old(L.self)._idle_connections))
+        & (L.self._total_connections == L.old(L.self)._total_connections)
+        & (L.self._connections_closed == L.old(L.self)._connections_closed)),
+    ("no-earlier-entry-is-the-connection", lambda L: forall(Int, lambda j: implies(
+        (0 <= j) & (j < L.i), mk_num(field_term(ObjProxy(seq_nth(seq_term(L.self._idle_connections), zi(j)), _K["Connection"]), "id"))
+        != L.connection_id), "j"))])
+
 from specs.common import *  # noqa: E402,F401
 from specs.c09_meta import CTX, md_has, md_val  # noqa: E402
 
@@ -530,8 +555,19 @@ PROPERTY = {
         "PreemptibleResource._try_preempt only moves capacity from held grants back to available and does not touch the "
         "wait queue (stub: sorted(..., key=) over a list of symbolic length is out of reach); in acquire on the repaired "
         "tree _wake_waiters is used through its proved contract (effects on other processes' futures are not framed)",
-        "Bulkhead._forward_request takes exactly one permit under a fresh request id and emits one event (stub: dict "
-        "unpacking of a symbolic event context is out of reach)",
+        "Event.context is modelled as a typed record (specs/c09_meta.py, this check only): context['metadata'] with the keys "
+        "request_id, connection_id, expected_last_used, _bh_request_id, _bh_name, processing_time; every other context key "
+        "('id', 'created_at', tracing) is write-only for these components and not modelled",
+        "Bulkhead control events (_bh_response / _bh_timeout) and pool idle timeouts are created by the component itself, so "
+        "they carry the metadata keys it wrote (preconditions a-response-of-this-bulkhead / a-timeout-of-this-bulkhead / "
+        "an-idle-timeout-armed-by-this-pool)",
+        "Bulkhead._try_process_queued recurses: the nested call is replaced by the function's own contract (partial "
+        "correctness; termination: the queue shrinks by one per call)",
+        "the stubs RWLock._has_waiting_writer, ConnectionPool._remove_waiter and PreemptibleResource._try_preempt are "
+        "additionally exercised by the bounded stand-in stubbed-helpers-and-close-all (triage/c09_bounded.py)",
+        "ThreadPool: the processing-time extractor is an opaque pure callable; that tasks reach handle_queued_event in "
+        "submission order is the queue/driver pipeline of QueuedResource (specs/C08.py part E)",
+        "Condition.wait_for: the predicate is an opaque callable without effect on modelled state",
         "pyvc/loops.py fresh_only (added for this property): fields of objects a loop body allocates itself are havoc'd "
         "only for those objects; checked per iteration by the obligation `fresh-only:<Class.field>`",
     ],
@@ -983,6 +1019,31 @@ fn(Condition, "wait", uses=RESOLVE, focus=lambda s: [s.self._lock],
    ensures=[("lock-reacquired-on-return", lambda s: s.self._lock._locked)],
    raises={RuntimeError: []})
 
+PREDICATE = Fn(Bool, "predicate")
+
+
+def _wait_for_result(s):
+    """True only right after the predicate held; False only after the timeout elapsed on the simulated clock"""
+    calls = fn_calls()
+    if s.result is True or s.result is False:
+        res = s.result
+    else:
+        return False
+    if res:
+        return (len(calls) >= 1) and (calls[-1][3] == True)     # noqa: E712  (symbolic comparison)
+    if s.timeout is None:
+        return False
+    return (now_ns(s.self) - ns(s.old(s.self._clock)._current_time)) >= s.timeout * 1000000000
+
+
+fn(Condition, "wait_for", args={"predicate": PREDICATE, "timeout": Opt(Real)}, uses=RESOLVE, focus=lambda s: [s.self._lock],
+   yields=Yields(at_yield=[parks_or_progresses(lambda s: False)],
+                 stable=_STABLE + [("Condition", "_lock")], rely=[_CLOCK_RELY,
+                     lambda s, b, y: implies(b.pre(s.self._lock)._locked, s.self._lock._locked)]),
+   ensures=[("lock-held-on-return", lambda s: s.self._lock._locked),
+            ("true-after-the-predicate-held--false-only-after-the-timeout", _wait_for_result)],
+   raises={RuntimeError: [("only-when-called-without-the-lock", lambda s: Not(s.old(s.self._lock)._locked))]})
+
 # ============================================================================ C. ConnectionPool
 from happysimulator.components.client import connection_pool as _cp  # noqa: E402
 from happysimulator.components.client.connection_pool import ConnectionPool, Connection  # noqa: E402
@@ -1020,13 +1081,20 @@ cls(ConnectionPool, fields={
              contains(o._active_connections, k),
              (1 <= k) & (k <= o._next_connection_id) & owner_is(o, k, map_val(o._active_connections, k))), "k")
              & (o._next_connection_id >= 0)),
-         ("idle-connection-is-not-lent-out", lambda o: (o.g_inext == o.g_ihead + slen(o._idle_connections))
-             & forall(Int, lambda i: implies(
+         ("idle-connection-is-not-lent-out", lambda o: forall(Int, lambda i: also_at(i + 1) & implies(
                  (0 <= i) & (i < slen(o._idle_connections)),
                  Not(contains(o._active_connections, idle_id(o, i))) & (1 <= idle_id(o, i))
                  & (idle_id(o, i) <= o._next_connection_id) & allocated(idle_at(o, i))
                  & owner_is(o, idle_id(o, i), idle_at(o, i)._ref)
-                 & mk_bool(field_term(idle_at(o, i), "g_slot") == num(o.g_ihead) + zi(i))), "i"))])
+                 & (idle_slot(o, i) < o.g_inext)), "i")),
+         # the entries of the idle queue are pairwise different connections: their parking tickets (issued at the tail,
+         # never reused) increase along the queue - also after the idle timer took an entry out of the middle
+         ("idle-connections-are-distinct", lambda o: forall(Int, lambda i: forall(Int, lambda j: also_at(i + 1) & also_at(j + 1)
+             & implies((0 <= i) & (i < j) & (j < slen(o._idle_connections)), idle_slot(o, i) < idle_slot(o, j)), "j"), "i"))])
+
+
+def idle_slot(o, i):
+    return mk_num(field_term(idle_at(o, i), "g_slot"))
 
 
 def map_val(d, k):
@@ -1039,7 +1107,7 @@ def owner_is(o, k, ref):
 
 
 def idle_at(o, i):
-    return ObjProxy(seq_term(o._idle_connections)[zi(i)], Connection, o._frozen)
+    return ObjProxy(seq_nth(seq_term(o._idle_connections), zi(i)), Connection, o._frozen)
 
 
 def idle_id(o, i):
@@ -1107,6 +1175,39 @@ fn(ConnectionPool, "release", args={"connection": Ref(Connection)},
     ("handed-to-the-longest-waiter-or-parked-idle", _release_post),
     ("held-connections-conserved", lambda s: slen(s.self._active_connections) + slen(s.self._idle_connections)
         == slen(s.old(s.self)._active_connections) + slen(s.old(s.self)._idle_connections))])
+
+
+def _idle_timer_post(s):
+    """the idle timer closes at most the ONE idle connection it was armed for (same id, not used since), keeps the
+    warm minimum, and never touches a lent-out connection"""
+    old = s.old(s.self)
+    ctx = field_term(s.event, "context")
+    cid, stamp = md_val(ctx, "connection_id"), md_val(ctx, "expected_last_used")
+    n = slen(old._idle_connections)
+    d = n - slen(s.self._idle_connections)
+    old_t = seq_term(old._idle_connections)
+
+    def armed(k):
+        return (idle_id(old, k) == cid) & (ns(idle_at(old, k).last_used_at) == ns(stamp))
+    removed = exists(Int, lambda k: (0 <= k) & (k < n) & armed(k) & mk_bool(
+        seq_term(s.self._idle_connections) == z3.Concat(z3.Extract(old_t, z3.IntVal(0), zi(k)),
+                                                        z3.Extract(old_t, zi(k) + 1, zi(n) - zi(k) - 1))))
+    return ((d == 0) | (d == 1)) \
+        & (s.self._total_connections == old._total_connections - d) & (s.self._connections_closed == old._connections_closed + d) \
+        & implies(d == 1, (old._total_connections > s.self._min_connections) & removed) \
+        & implies(d == 0, unchanged(s, s.self)) \
+        & implies(forall(Int, lambda k: implies((0 <= k) & (k < n), Not(armed(k))), "k"), d == 0)
+
+
+fn(ConnectionPool, "_handle_idle_timeout", args={"event": Ref(Event)},
+   requires=[("an-idle-timeout-armed-by-this-pool", lambda s: md_has(field_term(s.event, "context"), "connection_id")
+              & md_has(field_term(s.event, "context"), "expected_last_used"))],
+   ensures=[
+    ("closes-at-most-the-idle-connection-it-was-armed-for", _idle_timer_post),
+    ("an-active-connection-is-never-closed-by-the-idle-timer", lambda s: unchanged(s, s.self, "_active_connections", "g_pending")),
+    ("re-arms-itself-only-when-it-kept-the-connection", lambda s: True if s.result is None else
+        ((len(s.result) == 1) & (s.result[0].event_type == "_pool_idle_timeout") & same(s.result[0].target, s.self)
+         & unchanged(s, s.self)))])
 
 # ============================================================================ D. PreemptibleResource
 from happysimulator.components.industrial import preemptible_resource as _pre  # noqa: E402
@@ -1318,7 +1419,9 @@ def _tpq_started(s):
     if s.result is None:
         return (started == 0) & (expired == taken)
     last = bq_at(old, taken - 1)
-    return (started == 1) & (expired == taken - 1) & (slen(s.result) == 1) \
+    mw = s.self._max_wait_time
+    fresh_enough = True if mw is None else (now_ns(s.self) - ns(last.enqueue_time) <= mw * 1000000000)
+    return (started == 1) & (expired == taken - 1) & (slen(s.result) == 1) & fresh_enough \
         & (ev0(s.result).event_type == last.event.event_type) & same(ev0(s.result).target, s.self._target)
 
 
@@ -1379,18 +1482,82 @@ fn(Bulkhead, "_handle_timeout", args={"event": Ref(Event)},
                                                "_rejected_requests", "_total_requests")),
     ("each-request-accounted-exactly-once", lambda s: bh_unaccounted(s.self) == bh_unaccounted(s.old(s.self)))])
 
-fn(Bulkhead, "handle_event", args={"event": Ref(Event)}, uses=FWD,
-   requires=[("a-client-request", lambda s: (s.event.event_type != "_bh_response") & (s.event.event_type != "_bh_timeout"))],
+def _bh_client(s):
+    return (s.event.event_type != "_bh_response") & (s.event.event_type != "_bh_timeout")
+
+
+# one entry point for client requests and for the bulkhead's own control events (dispatched to _handle_response /
+# _handle_timeout, which run inlined here; their own contracts are above)
+fn(Bulkhead, "handle_event", args={"event": Ref(Event)}, uses=FWD + TPQ,
+   requires=[("a-client-request-or-an-own-control-event", lambda s: _bh_client(s) | _bh_own_event(s))],
    ensures=[
-    ("admitted-iff-a-permit-is-free", lambda s: iff(s.self._active_count == s.old(s.self)._active_count + 1,
-        s.old(s.self)._active_count < s.self._max_concurrent)),
-    ("queued-iff-no-permit-but-room-in-the-queue", lambda s: iff(slen(s.self._wait_queue) == slen(s.old(s.self)._wait_queue) + 1,
-        (s.old(s.self)._active_count >= s.self._max_concurrent) & (slen(s.old(s.self)._wait_queue) < s.self._max_wait_queue))),
-    ("rejected-otherwise", lambda s: iff(s.self._rejected_requests == s.old(s.self)._rejected_requests + 1,
-        (s.old(s.self)._active_count >= s.self._max_concurrent) & (slen(s.old(s.self)._wait_queue) >= s.self._max_wait_queue))),
-    ("counted-once", lambda s: s.self._total_requests == s.old(s.self)._total_requests + 1),
+    ("admitted-iff-a-permit-is-free", lambda s: implies(_bh_client(s), iff(s.self._active_count == s.old(s.self)._active_count + 1,
+        s.old(s.self)._active_count < s.self._max_concurrent))),
+    ("queued-iff-no-permit-but-room-in-the-queue", lambda s: implies(_bh_client(s), iff(
+        slen(s.self._wait_queue) == slen(s.old(s.self)._wait_queue) + 1,
+        (s.old(s.self)._active_count >= s.self._max_concurrent) & (slen(s.old(s.self)._wait_queue) < s.self._max_wait_queue)))),
+    ("rejected-otherwise", lambda s: implies(_bh_client(s), iff(s.self._rejected_requests == s.old(s.self)._rejected_requests + 1,
+        (s.old(s.self)._active_count >= s.self._max_concurrent) & (slen(s.old(s.self)._wait_queue) >= s.self._max_wait_queue)))),
+    ("counted-once", lambda s: s.self._total_requests == s.old(s.self)._total_requests + ite(_bh_client(s), 1, 0)),
+    ("control-events-never-take-more-than-the-freed-permit", lambda s: implies(Not(_bh_client(s)),
+        s.self._active_count <= s.old(s.self)._active_count)),
     ("each-request-accounted-exactly-once", lambda s: bh_unaccounted(s.self) == bh_unaccounted(s.old(s.self)))])
 
 fn(PreemptibleGrant, "_do_preempt", inv=False, requires=[lambda s: Not(s.self._released)], ensures=[
     ("marked-preempted-and-released", lambda s: s.self._preempted & s.self._released),
     ("amount-leaves-held", lambda s: s.self._resource.g_held == s.old(s.self._resource).g_held - s.self._amount)])
+
+# ============================================================================ bounded stand-ins (labelled bounded, never counted as proved)
+def _c09_standins(seed, tier):
+    """the three functions kept as assumed stubs (RWLock._has_waiting_writer, ConnectionPool._remove_waiter,
+    PreemptibleResource._try_preempt - generator expressions / sorted(key=) over containers of symbolic length) and
+    ConnectionPool.close_all (three loops, one over an unordered dict: needs the cardinality of the visited set) are
+    driven natively through the public API against oracles written from the statement (triage/c09_bounded.py)"""
+    return run_native_script("triage/c09_bounded.py", 300 if tier == "quick" else 6000, seed)
+
+
+PROPERTY.setdefault("bounded", []).append({
+    "name": "stubbed-helpers-and-close-all",
+    "bound": "300 (quick) / 6000 (thorough) seeded models each: RWLock interleavings of <= 25 steps; waiter queues of <= 7 entries; "
+             "PreemptibleResource capacity <= 6, <= 20 acquire/release steps over 5 priority levels; pools of <= 4 connections with "
+             "<= 7 workers and one close_all",
+    "fn": _c09_standins})
+
+# ============================================================================ F. ThreadPool
+# The worker-slot counter is a FixedConcurrency (its own functions are under contract in specs/C08.py part B; here
+# they run inlined and its class invariant is re-checked at every exit and yield of the pool's functions).  That
+# tasks reach handle_queued_event in submission order is the FIFO queue + driver pipeline of QueuedResource (C08 part E).
+from happysimulator.components.server.thread_pool import ThreadPool  # noqa: E402
+from happysimulator.components.server.concurrency import FixedConcurrency  # noqa: E402
+
+cls(FixedConcurrency, fields={"_max_concurrent": Int, "_active": Int}, const=["_max_concurrent"],
+    inv=[("never-more-workers-busy-than-the-pool-has", lambda o: (0 <= o._active) & (o._active <= o._max_concurrent)),
+         ("limit", lambda o: o._max_concurrent >= 1)])
+PTIME = Fn(Real, "processing_time_extractor")
+cls(ThreadPool, fields={"_num_workers": Int, "_worker_pool": Ref(FixedConcurrency), "_processing_time_extractor": Opt(PTIME),
+                        "_default_processing_time": Real, "_tasks_completed": Int, "_tasks_rejected": Int,
+                        "_total_processing_time": Real, "_processing_times": Seq(Real)},
+    const=["_num_workers", "_worker_pool", "_processing_time_extractor", "_default_processing_time"],
+    inv=[("worker-slots-are-the-pool-size", lambda o: o._worker_pool._max_concurrent == o._num_workers)])
+
+fn(ThreadPool, "has_capacity", focus=lambda s: [s.self._worker_pool], ensures=[
+    ("capacity-iff-a-worker-is-idle", lambda s: iff(s.result, s.self._worker_pool._active < s.self._num_workers)),
+    ("pure", lambda s: unchanged(s, s.self) & unchanged(s, s.self._worker_pool))])
+
+fn(ThreadPool, "handle_queued_event", args={"event": Ref(Event)}, focus=lambda s: [s.self._worker_pool],
+   yields=Yields(
+       at_yield=[("worker-taken-before-the-task-runs", lambda s, y:
+                  s.self._worker_pool._active == s.old(s.self._worker_pool)._active + 1),
+                 ("never-more-workers-busy-than-the-pool-has", lambda s, y: s.self._worker_pool._active <= s.self._num_workers)],
+       stable=[("Entity", "_clock"), ("Event", "event_type"), ("Event", "context")]
+              + [("ThreadPool", f) for f in ("_num_workers", "_worker_pool", "_processing_time_extractor", "_default_processing_time")],
+       rely=[lambda s, b, y: ns(s.self._clock._current_time) >= ns(b.pre(s.self._clock)._current_time)]),
+   ensures=[
+    ("each-task-completed-or-rejected-exactly-once", lambda s:
+        (s.self._tasks_completed - s.pre(s.self)._tasks_completed) + (s.self._tasks_rejected - s.pre(s.self)._tasks_rejected) == 1),
+    ("rejected-only-when-every-worker-is-busy-and-takes-no-worker", lambda s: implies(
+        s.self._tasks_rejected == s.pre(s.self)._tasks_rejected + 1,
+        (s.old(s.self._worker_pool)._active >= s.self._num_workers) & unchanged(s, s.self._worker_pool))),
+    ("worker-released-exactly-at-completion", lambda s: implies(
+        s.self._tasks_completed == s.pre(s.self)._tasks_completed + 1,
+        s.self._worker_pool._active == ite(s.pre(s.self._worker_pool)._active >= 1, s.pre(s.self._worker_pool)._active - 1, 0)))])
